@@ -588,6 +588,7 @@ void convertTDPStoBytes_double_reserve(TightDataPointStorageD* tdps, unsigned ch
 //Convert TightDataPointStorageD to bytes...
 void convertTDPStoFlatBytes_double(TightDataPointStorageD *tdps, unsigned char** bytes, size_t *size) 
 {
+	SZ_VERIF_YIELD(4);
 	size_t i, k = 0; 
 	unsigned char dsLengthBytes[8];
 	
